@@ -579,6 +579,7 @@ fn hostile_cert_params(class: &str, bg: &str) -> CertificateParams {
 			p.key_usages = vec![KeyUsagePurpose::DigitalSignature, KeyUsagePurpose::KeyCertSign];
 			p.extended_key_usages = vec![ExtendedKeyUsagePurpose::ServerAuth, ExtendedKeyUsagePurpose::Other(vec![1, 3, 6, 1, 4, 1, 55555, 9])];
 			p.custom_extensions = vec![CustomExtension::from_oid_content(&[1, 3, 6, 1, 4, 1, 55555, 1], vec![5, 0])];
+			p.distinguished_name.push(DnType::CustomDnType(vec![1, 2, 3, 4]), "first custom attribute");
 			p.distinguished_name.push(DnType::OrganizationName, "background");
 		},
 		_ => {},
@@ -676,7 +677,7 @@ pub fn run_matrix(cases_path: &str, out_path: &str) {
 						"idp-uri-empty" => Some(CrlIssuingDistributionPoint { distribution_point: CrlDistributionPoint { uris: vec![] }, scope: Some(CrlScope::UserCertsOnly) }),
 						_ => None,
 					},
-					revoked_certs: vec![RevokedCertParams {
+					revoked_certs: if bg == "no-revoked" { vec![] } else { vec![RevokedCertParams {
 						serial_number: match class.as_str() {
 							"revoked-serial-1m" => SerialNumber::from(vec![0x80u8; 1 << 20]),
 							"serial-empty" => SerialNumber::from_slice(&[]),
@@ -690,7 +691,7 @@ pub fn run_matrix(cases_path: &str, out_path: &str) {
 							"invalidity-with-valid-revtime" => entry_t,
 							_ => t,
 						},
-					}],
+					}] },
 					key_identifier_method: KeyIdMethod::PreSpecified(vec![1]),
 				};
 				p.signed_by(&issuer, &key.kp).is_ok()
